@@ -7,4 +7,15 @@ CHECKS = {
         's_to_c/c_prop (both 2-valued copies)/c_to_s/cycle run once on symbolic bit lanes, so z3 decides "captured value = gate-by-gate netlist value" for ALL stimuli of all lanes, '
         'batch sizes {1,3,8,9,17} and cycle counts <= 3. Circuit structure is enumerated, not symbolic - a bounded claim, which is the reachable level for object-graph code.',
    note='Trusted: oracle vlib/ref2.py, z3, numpy object-array dispatch. Bounds: corpus sizes/limits in evidence; explicitly sized kinds with trailing open pins excluded; cycles <= 3.'),
+ 'C02': dict(engine='E1-lanes', category='model_checking', design_ref='DESIGN.md §2.1, §2.5, §5 C02',
+   technique='symbolic execution of the real LogicSim (m=4, m=8) on z3 bit-vector planes + SMT equivalence with the documented algebra and X-soundness queries',
+   text='Per corpus circuit one symbolic run of the real 4-/8-valued c_prop with all three bit planes of every input lane symbolic; z3 decides (i) every captured value equals the '
+        'gate-by-gate composition of the documented operators modulo {X,-}, (ii) every non-unknown result component equals the 2-valued netlist value of ANY 0/1 completion of the unknown inputs, '
+        '(iii) known inputs give known outputs. Structure enumerated (bounded corpus), values exhaustive by solver.',
+   note='Trusted: vlib/specmv.py + vlib/ref2.py oracles, z3. MUX21 spec = OR(AND(i0,NOT s),AND(i1,s)). s_ppo_to_ppi with X/- in 8-valued mode outside the statement.'),
+ 'C12': dict(engine='E1-lanes + E2-symx', category='model_checking', design_ref='DESIGN.md §2.2, §5 C12',
+   technique='bp operators: one-path symbolic execution + z3; mv operators: forking symbolic execution of the real numpy code on symbolic codes, every path replayed on real uint8 arrays',
+   text='All value combinations of 1..4 operands are decided by z3 for the real bp4v_*/bp8v_* (terms over 8 lanes x planes) and the real mv_*/_mv_* (every feasible path of the numpy mask logic), '
+        'against the documented algebra (modulo {X,-}), the Boolean restriction, De Morgan duality, exact mv-vs-bp agreement and delivery in a caller-supplied out array. Shapes/broadcast cases enumerated.',
+   note='Trusted: vlib/specmv.py, z3, numpy object-array dispatch; np.empty shimmed to object arrays in symbolic runs, each path cross-checked on real uint8 arrays. Scalar (0-d) operands not covered.'),
 }
